@@ -205,7 +205,8 @@ copy_an_data(int32 infile_id, int32 outfile_id, int32 ref_in, int32 tag_in, int3
             continue;
         }
         /* Write the annotation  */
-        if (ANwriteann(ann_out, buf, ann_length) == FAIL) {
+        /* (the extra byte added above for reading a label is not part of the label) */
+        if (ANwriteann(ann_out, buf, is_label ? ann_length - 1 : ann_length) == FAIL) {
             printf("Failed to write AN %d of <%s>\n", i, path);
             ret = -1;
         }
